@@ -65,7 +65,7 @@ func runC16(c *Cfg) {
 
 const (
 	c16EmptySnap    = "d-,m0,z-,t-,l0,f-,u-"
-	c16ChildTimeout = 60 * time.Second
+	c16ChildTimeout = 180 * time.Second // safety net only; reported as Direct class "timeout"
 	c16WorkerHeader = "X-Verif-Worker"
 )
 
@@ -1513,11 +1513,11 @@ func (p *c16Parent) p5Case(env *c16Env, round int, r *Rng) *c16Buf {
 	for ci, ch := range children {
 		sp := cs.spec(ch.worker, ch.jobs, false)
 		sp.StartedFile = filepath.Join(gateDir, fmt.Sprintf("started%d", ci))
-		sp.GateFile, sp.GateMs = gate, 30000
+		sp.GateFile, sp.GateMs = gate, 150000
 		ch.proc = p.start(sp, 0)
 	}
 	for ci, ch := range children {
-		c16WaitFileOrDone(filepath.Join(gateDir, fmt.Sprintf("started%d", ci)), ch.proc.done, 30*time.Second)
+		c16WaitFileOrDone(filepath.Join(gateDir, fmt.Sprintf("started%d", ci)), ch.proc.done, 120*time.Second)
 	}
 	os.WriteFile(gate, []byte("go\n"), 0o666)
 	for ci, ch := range children {
@@ -1582,13 +1582,21 @@ func (p *c16Parent) p6Case(env *c16Env, idx int, mi int, hook string, twoGorouti
 	// A pauses at the hook until B is running (bounded by PauseMs as a safety net).
 	wa := cs.worker("A")
 	sa := cs.spec(wa, c16OneJob("fetch", mi), false)
-	sa.PauseAt, sa.PauseNth, sa.PauseMs, sa.ReachedFile, sa.ReleaseFile = hook, 1, 25000, reached, release
+	sa.PauseAt, sa.PauseNth, sa.PauseMs, sa.ReachedFile, sa.ReleaseFile = hook, 1, 150000, reached, release
 	if hook == "unzip.file-written" {
 		sa.PauseNth = n
 	}
 	pa := p.start(sa, 0)
-	gotThere := c16WaitFileOrDone(reached, pa.done, 20*time.Second)
-	b.Direct(gotThere, "pause-hook-not-reached", "child A never reached hook "+hook, cs.replay)
+	if !c16WaitFileOrDone(reached, pa.done, 120*time.Second) {
+		select {
+		case <-pa.done:
+			// A finished without passing that hook (e.g. it no longer exists): the pair
+			// degenerates to "B after A", which is still checked below.
+			b.Count("p6 pause-hook-not-reached")
+		default:
+			b.Direct(false, "timeout", "child A did not reach hook "+hook+" within the safety timeout", cs.replay)
+		}
+	}
 
 	wb := cs.worker("B")
 	jobsB := c16OneJob("fetch", mi)
@@ -1603,7 +1611,7 @@ func (p *c16Parent) p6Case(env *c16Env, idx int, mi int, hook string, twoGorouti
 	pb := p.start(sb, 0)
 	// B is initialised and about to call Fetch: give it a moment to run into A's critical
 	// section (or past it, if the code under test lets it), then let A go on.
-	c16WaitFileOrDone(started, pb.done, 20*time.Second)
+	c16WaitFileOrDone(started, pb.done, 120*time.Second)
 	c16WaitFileOrDone("", pb.done, 300*time.Millisecond)
 	os.WriteFile(release, []byte("go\n"), 0o666)
 	for i, pr := range []*c16Proc{pa, pb} {
@@ -1660,6 +1668,8 @@ func c16ParentMain(c *Cfg) {
 	}
 	defer env.hs.Close()
 	r := NewRng(c.Seed)
+	// one independent generator per phase, so that -focus (which skips P3) makes the same choices
+	rP3, rP4, rP6, rP5 := r.Sub(), r.Sub(), r.Sub(), r.Sub()
 	const poolSize = 16
 	nm := len(env.mods)
 
@@ -1743,7 +1753,7 @@ func c16ParentMain(c *Cfg) {
 			}
 		}
 		if !c.Thorough() {
-			pr := r.Sub()
+			pr := rP3
 			Shuffle(pr, pairs)
 			if len(pairs) > 40 {
 				pairs = pairs[:40]
@@ -1782,7 +1792,7 @@ func c16ParentMain(c *Cfg) {
 			}
 			cases = append(cases, p4c{mi, "modfile", []c16Step{{Fault: "modget"}}})
 		}
-		pr := r.Sub()
+		pr := rP4
 		for i := 0; i < c.Pick(4, 12); i++ {
 			mi := pr.Intn(nm)
 			f := Pick(pr, []string{"get", "copy", "short"})
@@ -1812,7 +1822,7 @@ func c16ParentMain(c *Cfg) {
 			two  bool
 		}
 		var cases []p6c
-		pr := r.Sub()
+		pr := rP6
 		if c.Thorough() {
 			for mi := 0; mi < nm; mi++ {
 				for _, h := range c16PauseHooks {
@@ -1822,7 +1832,10 @@ func c16ParentMain(c *Cfg) {
 		} else {
 			hooks := append([]string(nil), c16PauseHooks...)
 			Shuffle(pr, hooks)
-			for i, h := range hooks[:4] {
+			if !c.Focus { // the failing-input search tries every pause point
+				hooks = hooks[:4]
+			}
+			for i, h := range hooks {
 				cases = append(cases, p6c{pr.Intn(nm), h, i%2 == 1})
 			}
 		}
@@ -1836,8 +1849,11 @@ func c16ParentMain(c *Cfg) {
 	// P5: concurrency rounds.
 	{
 		rounds := c.Pick(6, 60)
+		if c.Focus && !c.Thorough() {
+			rounds = 12
+		}
 		rs := make([]*Rng, rounds)
-		pr := r.Sub()
+		pr := rP5
 		for i := range rs {
 			rs[i] = pr.Sub()
 		}
